@@ -12,6 +12,14 @@ CLAIMED = {
      technique='deterministic simulation: seeded per-member termination/reward schedules (all 2^8 sub-step masks as a 256-member batch + random histories), external resets and a simulated wall clock, checked step-by-step against a per-member sequential episode model',
      text='The real training.wrap / envs.create wrapper stacks, EvalWrapper, actor_step, generate_unroll and Evaluator are driven by a scripted environment whose terminations (also in the middle of an action repeat, on consecutive steps, exactly at the time limit) and rewards are decided by the seeded scheduler; every wrapped step of every member is compared exactly with a 60-line reference model, episode lengths with an independent closed form, Evaluator metrics with the model under two simulated clock schedules. Sampled exploration plus completely covered 2^8 mask sub-space per listed configuration.',
      note='Trusted: EpisodeModel and ScriptEnv (stubs written for the check); termination is sticky within an episode; r not dividing L is read as cut at the first wrapped step reaching episode_length; timing metrics are not asserted.'),
+  'C18': dict(engine='stats', design='5/C18',
+     technique='deterministic simulation: one seeded sample stream delivered under seeded schedules (cuts, batch axes, order, integer weights incl. 0, sharding over forced host devices with psum), statistics after every update compared with the population statistics of everything delivered',
+     text='The real init_state/update/normalize/denormalize are fed one stream under different delivery schedules decided by the seeded scheduler (partition into 1-8 batches, 1-2 batch axes, permutation, weights 0..4 as multiplicities, zero-weight batches/devices, pmap and vmap(axis_name) psum over 2-4 devices, jit/eager, clipping bounds); after every update count (exact), mean and variance on every device are compared with float64 two-pass population statistics; round trip checked incl. bitwise integer leaves. Sampled exploration in float64 (tol 1e-9) and float32 (tol 2e-4).',
+     note='Trusted: numpy float64 two-pass reference. First batch has positive total weight; max_abs_value=None.'),
+  'C16': dict(engine='envs', design='5/C16',
+     technique='deterministic simulation: seeded reset keys and adversarial action schedules (uniform, bang-bang, held, chatter, zero-then-bang) with auto-reset boundaries inside the history; per-step on-device safety invariants; cross-process replay digests and duplicate-member determinism',
+     text='All 11 registered physics environments on every native backend they accept are driven through training.wrap for 200-1000 wrapped steps in batches of 8-128; after every step all observations, rewards, done flags, q, qd, link poses and velocities must be finite and link quaternions unit; shapes match the declared sizes; done=0 at reset; the same genome re-executed in another process and a duplicated member must give bit-identical results. Sampled exploration, float32 (the precision the bundled envs run in).',
+     note='Trusted: XLA CPU with pinned flags. mjx backend not exercised. Unit-quaternion tolerance 1e-5 in float32.'),
 }
 
 NA = {
